@@ -159,10 +159,79 @@ Local Open Scope N_scope.
    check is switched off in the harness builds except for the CHKSUM op of h_c03. *)
 Definition chksum_ub (misalign len : N) : bool := negb (misalign mod 4 =? 0) && (8 <=? len).
 
+(* ------------------------------------------------------------------ date/time parsers (field.hpp)
+   parse_decimal(begin, len, to):  while (len-- > 0) to = (to << 3) + (to << 1) + (next char - '0');
+   reads len chars whatever they are; a char below '0' makes [to] negative and the next turn
+   shifts a negative value (UB).  date_time_parse / time_parse / date_parse read FIXED positions
+   of the text (beyond its NUL when it is too short: stale bytes of val[], not modelled -> None),
+   time_to_epoch indexes mon_days[tm_mon] without a range test (index out of bounds for a month
+   outside 01..13).
+   dt_ub ty v = Some true: UBSan reports UB; Some false: none; None: not determined by v alone. *)
+Local Open Scope Z_scope.
+Definition pd_step (st : bool * Z) (ch : N) : bool * Z :=
+  let '(ub, r) := st in
+  if ub then (true, r)
+  else if r <? 0 then (true, r)
+  else let s := r * 10 + (schar ch - 48) in
+       if in_i32 s && (r * 8 <? 4294967296) then (false, s) else (true, r).
+Definition pd (chars : list N) : bool * Z := fold_left pd_step chars (false, 0).
+
+Definition mon_days : list Z := [0; 31; 59; 90; 120; 151; 181; 212; 243; 273; 304; 334; 365].
+Definition in_i64 (z : Z) : bool := (-9223372036854775808 <=? z) && (z <? 9223372036854775808).
+(* time_to_epoch(ltm) * Tickval::billion (+ the millisecond ticks already in result):
+   UB?  arguments: tm_year, tm_mon, tm_mday, tm_hour, tm_min, tm_sec, ticks accumulated so far.
+   The seconds are computed in time_t since the repair 4d1009d (before: in int, signed overflow
+   from 2038-01-19 on); the product with 10^9 is a 64-bit signed multiplication (overflow for
+   years before 1678 / after 2262) *)
+Definition tte_ub (year mon mday hour min sec acc : Z) : bool :=
+  if (mon <? 0) || (12 <? mon) then true
+  else
+    let tyears := if year =? 0 then 0 else year - 70 in
+    let t0 := nth (Z.to_nat mon) mon_days 0 + (if mday =? 0 then 0 else mday - 1) in
+    let t1 := t0 + tyears * 365 in
+    let t2 := t1 + Z.quot (tyears + 2) 4 in
+    let tdays := if negb (year =? 0) && (Z.rem year 4 =? 0) && (mon <? 2) then t2 - 1 else t2 in
+    let e := tdays * 86400 + hour * 3600 + min * 60 + sec in
+    negb (in_i32 (tyears * 365) && in_i32 t1 && in_i32 t2 && in_i32 tdays && in_i64 (e * 1000000000)
+          && in_i64 (acc + e * 1000000000)).
+Local Open Scope N_scope.
+
+Definition sub (l : list N) (off n : N) : list N := firstN n (skipN off l).
+Definition is_now (s : list N) : bool :=
+  match s with [110; 111; 119] => true | _ => false end.       (* "now" *)
+
+Definition dt_ub (ty : N) (v : list N) : option bool :=
+  let s := cstr v in
+  let len := lenN s in
+  if (len =? 0) || is_now s then Some false                     (* "initialise to now" *)
+  else if ty =? ft_UTCTimestamp then
+    if len <? 17 then None
+    else
+      let '(u1, y) := pd (sub s 0 4) in let '(u2, mo) := pd (sub s 4 2) in let '(u3, d) := pd (sub s 6 2) in
+      let '(u4, h) := pd (sub s 9 2) in let '(u5, mi) := pd (sub s 12 2) in let '(u6, se) := pd (sub s 15 2) in
+      let '(u7, ms) := if len =? 21 then pd (sub s 18 3) else (false, 0%Z) in
+      let ut := if (len =? 21) || (len =? 17) then tte_ub (y - 1900) (mo - 1) d h mi se (ms * 1000000) else false in
+      Some (u1 || u2 || u3 || u4 || u5 || u6 || u7 || ut)
+  else if ty =? ft_UTCTimeOnly then
+    if len <? 8 then None
+    else
+      let u1 := fst (pd (sub s 0 2)) in let u2 := fst (pd (sub s 3 2)) in let u3 := fst (pd (sub s 6 2)) in
+      let u4 := if len =? 12 then fst (pd (sub s 9 3)) else false in
+      Some (u1 || u2 || u3 || u4)
+  else if (ty =? ft_UTCDateOnly) || (ty =? ft_LocalMktDate) || (ty =? ft_MonthYear) then
+    if len <? 6 then None
+    else
+      let '(u1, y) := pd (sub s 0 4) in let '(u2, mo) := pd (sub s 4 2) in
+      let '(u3, d) := if len =? 8 then pd (sub s 6 2) else (false, 1%Z) in
+      Some (u1 || u2 || u3 || tte_ub (y - 1900)%Z (mo - 1)%Z d 0%Z 0%Z 0%Z 0%Z)
+  else Some false.
+
 (* Field<int> built from a C string is what decode builds for the int classes ft_int .. ft_end_int *)
+(* BodyLength is the exception: decode starts after the preamble and a repeated 9= is skipped
+   (automatic trait); the object's value is set by factory from fast_atoi<unsigned>(len) *)
 Definition val_ub (c : ctx) (f : N) (v : list N) : bool :=
   match find_be (c_fields c) f with
-  | Some ty => is_int_type ty && atoi_ub v
+  | Some ty => is_int_type ty && negb (f =? Common_BodyLength) && atoi_ub v
   | None => false
   end.
 (* every field object of a decoded message: _pos entries of the parts and, recursively, of the
@@ -183,6 +252,27 @@ Fixpoint mb_ub (c : ctx) (m : mbase) : bool :=
 Definition msg_ub (c : ctx) (m : message) : bool :=
   mb_ub c (m_hdr m) || mb_ub c (m_body m) || mb_ub c (m_trl m).
 
+(* the same walk for the date/time classes *)
+Definition val_dt_ub (c : ctx) (f : N) (v : list N) : bool :=
+  match find_be (c_fields c) f with
+  | Some ty => match dt_ub ty v with Some true => true | _ => false end
+  | None => false
+  end.
+Fixpoint mb_dt_ub (c : ctx) (m : mbase) : bool :=
+  match m with
+  | MB _ _ _ pos groups _ =>
+    existsb (fun e => val_dt_ub c (fst (snd e)) (snd (snd e))) pos ||
+    (fix gl (gs : list (N * list mbase)) : bool :=
+       match gs with
+       | [] => false
+       | (_, els) :: r =>
+         (fix el (es : list mbase) : bool :=
+            match es with [] => false | e :: r' => mb_dt_ub c e || el r' end) els || gl r
+       end) groups
+  end.
+Definition msg_dt_ub (c : ctx) (m : message) : bool :=
+  mb_dt_ub c (m_hdr m) || mb_dt_ub c (m_body m) || mb_dt_ub c (m_trl m).
+
 (* ------------------------------------------------------------------ classes for the tie
    DOk     the run returns a message (the driver prints its dump)
    DExc    a library exception
@@ -191,14 +281,15 @@ Definition msg_ub (c : ctx) (m : message) : bool :=
    DOther  any other OOB site of the codec model
    DHang   decode_group appends empty elements for ever
    DUb     fast_atoi<int> UB while building a field (message otherwise accepted)
+   DUbDate UB in a date/time parser (parse_decimal / time_to_epoch) while building a field
    DFuel   model artefact *)
-Inductive dclass := DOk (m : message) | DExc (e : exc) | DHdr | DDec | DOther (s : N) | DHang | DUb | DFuel.
+Inductive dclass := DOk (m : message) | DExc (e : exc) | DHdr | DDec | DOther (s : N) | DHang | DUb | DUbDate | DFuel.
 
 Definition is_xe_site (s : N) : bool := (s =? site_tag_write) || (s =? site_val_write) || (s =? site_read).
 
 Definition dec_class (c : ctx) (bytes : list N) (no_chksum permissive : bool) : dclass :=
   match factory c real_caps bytes no_chksum permissive with
-  | Ok m => if msg_ub c m then DUb else DOk m
+  | Ok m => if msg_ub c m then DUb else if msg_dt_ub c m then DUbDate else DOk m
   | Exc e => DExc e
   | OOB s =>
       if is_xe_site s then
